@@ -16,7 +16,7 @@ time, ownership is shown by the ASan-clean free-after-call discipline of the har
 the theorems are over sequential histories — `mu_` makes every mutator and `End` atomic, so every concurrent execution is
 one of them. -/
 namespace Otel.C04
-open Otel Otel.Attr Otel.Span
+open Otel Otel.SAttr Otel.Span
 
 /-! ## Specification vocabulary -/
 
